@@ -284,3 +284,24 @@ class Scenario:
 
 def is_api_error(e) -> bool:
     return isinstance(e, APIConnectionError)
+
+
+def enabled_pairs(make_scenario, alpha) -> list:
+    """(i, j) index pairs of events that are enabled one after the other from a stage (native)."""
+    out = []
+    for i, ev in enumerate(alpha):
+        s = make_scenario()
+        try:
+            ok = s.apply(ev)
+        finally:
+            s.close()
+        if not ok:
+            continue
+        for j, ev2 in enumerate(alpha):
+            s = make_scenario()
+            try:
+                if s.apply(ev) and s.apply(ev2):
+                    out.append((i, j))
+            finally:
+                s.close()
+    return out
